@@ -430,7 +430,14 @@ func ruleGxzDataSafety(c *Ctx, r *Report, prefix string) {
 					okOpen = false
 				}
 				tc, isC := a[0].(*ssa.Call)
-				if !isC || tc.Call.StaticCallee() != tmpName || tnCall == nil || !roleExtract(roleIs(tnCall), 0)(tc.Call.Args[0]) {
+				if tmpName == newWriter {
+					// tmpName was inlined into newWriter: the opened name is target + non-empty constant
+					resolveWith = p
+					if tnCall == nil || !isPathPlusNonEmptyOf(a[0], func(v ssa.Value) bool { return roleExtract(roleIs(tnCall), 0)(v) }) {
+						okTmp = false
+					}
+					resolveWith = nil
+				} else if !isC || tc.Call.StaticCallee() != tmpName || tnCall == nil || !roleExtract(roleIs(tnCall), 0)(tc.Call.Args[0]) {
 					okTmp = false
 				}
 				// existence test: IsNotExist(err of Stat) true, or force
@@ -470,7 +477,11 @@ func ruleGxzDataSafety(c *Ctx, r *Report, prefix string) {
 			r.Check(okName, rule, "newWriter:rename-target", c.Pos(newWriter.Pos()), "w.name (rename destination) = targetName(path)", "w.name is not set to the result of targetName")
 		}
 	}
-	// tmpName appends a non-empty constant
+	// tmpName appends a non-empty constant (when it was inlined into newWriter the same is
+	// checked on the name handed to OpenFile, above)
+	if tmpName == newWriter {
+		r.Pass(rule, "tmpName:suffix", c.Pos(newWriter.Pos()), "tmpName inlined into newWriter: suffix checked at the OpenFile call", 1)
+	} else
 	{
 		ok := true
 		n := 0
@@ -875,4 +886,21 @@ func optionStores(c *Ctx, cone map[*ssa.Function]bool, optT types.Type) []string
 	}
 	sort.Strings(out)
 	return out
+}
+
+// isPathPlusNonEmptyOf: v is base + non-empty string where base satisfies the role (φ of such
+// sums allowed: the suffix depends on the direction).
+func isPathPlusNonEmptyOf(v ssa.Value, base func(ssa.Value) bool) bool {
+	switch x := rv(v).(type) {
+	case *ssa.BinOp:
+		return x.Op == token.ADD && base(rv(x.X)) && nonEmptyString(x.Y, 0)
+	case *ssa.Phi:
+		for _, e := range x.Edges {
+			if !isPathPlusNonEmptyOf(e, base) {
+				return false
+			}
+		}
+		return len(x.Edges) > 0
+	}
+	return false
 }
